@@ -75,11 +75,12 @@ func (cm *FairMQ) Commit(evt string, src string, dst string, args map[string]str
 	case "EXIT":
 		var state string
 		if src == "CONFIGURED" { // We need to RESET first
-			state, err = cm.doReset(evt, src, dst, args)
+			state, err = cm.doReset(evt, src, "STANDBY", args)
 			if state != "STANDBY" {
 				finalState = state
 				break
 			}
+			src = state // the reset phase brought the device to IDLE, END is requested from there
 		}
 		finalState, err = cm.DoTransition(EventInfo{fairmq.EvtEND, cm.fmqStateForState(src), cm.fmqStateForState(dst), args})
 		finalState = cm.stateForFmqState(finalState)
@@ -131,7 +132,8 @@ func (cm *FairMQ) doConfigure(evt string, src string, dst string, args map[strin
 	state, err = cm.DoTransition(EventInfo{fairmq.EvtBIND, fairmq.INITIALIZED, fairmq.BOUND, nil})
 	if state == fairmq.INITIALIZED { // If we're stuck in the intermediate INITIALIZED state, we roll back to IDLE
 		state, _ = cm.DoTransition(EventInfo{fairmq.EvtRESET_DEVICE, fairmq.INITIALIZED, cm.fmqStateForState(src), nil})
-	} else if state != fairmq.BOUND {
+	}
+	if state != fairmq.BOUND {
 		finalState = cm.stateForFmqState(state)
 		return
 	}
@@ -139,7 +141,8 @@ func (cm *FairMQ) doConfigure(evt string, src string, dst string, args map[strin
 	state, err = cm.DoTransition(EventInfo{fairmq.EvtCONNECT, fairmq.BOUND, fairmq.DEVICE_READY, nil})
 	if state == fairmq.BOUND { // If we're stuck in the intermediate BOUND state, we roll back to IDLE
 		state, _ = cm.DoTransition(EventInfo{fairmq.EvtRESET_DEVICE, fairmq.BOUND, cm.fmqStateForState(src), nil})
-	} else if state != fairmq.DEVICE_READY {
+	}
+	if state != fairmq.DEVICE_READY {
 		finalState = cm.stateForFmqState(state)
 		return
 	}
